@@ -152,6 +152,19 @@ func (c *Ctx) Graph() *ModGraph {
 					callee := cc.StaticCallee()
 					if c.InModule(callee) {
 						addEdge(fn, callee, ins, "static")
+						// a function value handed to a module helper (mapSlice(xs, convert)) is called on the caller's behalf
+						for _, a := range cc.Args {
+							switch fv := unwrapConv(a).(type) {
+							case *ssa.Function:
+								if c.InModule(fv) {
+									addEdge(fn, fv, ins, "escape")
+								}
+							case *ssa.MakeClosure:
+								if f, ok := fv.Fn.(*ssa.Function); ok && c.InModule(f) {
+									addEdge(fn, f, ins, "escape")
+								}
+							}
+						}
 					} else {
 						name := calleeFullName(ci)
 						switch name {
